@@ -20,6 +20,8 @@ import (
 
 type c02Arg struct {
 	Slots map[string][]int `json:"slots"` // device name -> slot numbers (relative to now)
+	// Rotations forced before the history: the window offset is 2016*Rotations, the clock stands 100 slots into the window
+	Rotations int `json:"rotations"`
 }
 
 const c02Now = 100
@@ -43,12 +45,12 @@ func c02Devices() map[string]c02Dev {
 
 var c02Cache = map[string][]byte{}
 
-func c02Datagram(dev c02Dev, slot int, variant string) []byte {
-	ck := fmt.Sprintf("%s/%d/%s", dev.name, slot, variant)
+func c02Datagram(dev c02Dev, base uint32, slot int, variant string) []byte {
+	ck := fmt.Sprintf("%s/%d/%d/%s", dev.name, base, slot, variant)
 	if b, ok := c02Cache[ck]; ok {
 		return b
 	}
-	ts := uint32(c02Now + slot)
+	ts := base + uint32(c02Now+slot)
 	var p uint64
 	switch variant {
 	case "val", "resig":
@@ -132,7 +134,15 @@ func c02Exec(raw json.RawMessage, hist []string, deep bool) *bfsResult {
 		}
 		w.Cleanup()
 	}()
+	var a c02Arg
+	json.Unmarshal(raw, &a)
 	w.setNow(c02Now)
+	for i := 0; i < a.Rotations; i++ {
+		w.S.VerifRotate()
+		w.M.rotate()
+	}
+	base := uint32(a.Rotations) * mWeek
+	w.setNow(base + c02Now)
 	devs := c02Devices()
 	sets := map[string]map[string][]byte{} // "dev/slot" -> distinct datagrams received
 	first := map[string]string{}
@@ -143,7 +153,7 @@ func c02Exec(raw json.RawMessage, hist []string, deep bool) *bfsResult {
 		dn, v = parts[1], parts[3]
 		fmt.Sscan(parts[2], &slot)
 		d := devs[dn]
-		dg := c02Datagram(d, slot, v)
+		dg := c02Datagram(d, base, slot, v)
 		if p := safely(func() { w.S.VerifInjectDatagram(dg) }); p != "" {
 			poisoned = true
 			res.fail("panic/report/"+v, map[string]interface{}{"step": i, "op": op, "panic": p})
@@ -228,6 +238,22 @@ func init() {
 		ops := c02Ops(arg)
 		p := pool.New(0)
 		st := bfsPool(run, p, "c02", arg, depth, 0, func([]string) []string { return ops })
+		// the same search in a window that has rotated (offset 2016): indices and timeslots differ there
+		arg2 := c02Arg{Slots: map[string][]int{"A": {0}, "B": {0}}, Rotations: 1}
+		if tier == "thorough" {
+			arg2 = c02Arg{Slots: map[string][]int{"A": {0, 1}, "B": {0}}, Rotations: 2}
+		}
+		ops2 := c02Ops(arg2)
+		st2 := bfsPool(run, p, "c02", arg2, depth, 0, func([]string) []string { return ops2 })
+		st.States += st2.States
+		st.Transitions += st2.Transitions
+		st.DeepChecked += st2.DeepChecked
+		st.HarnessErrors += st2.HarnessErrors
+		st.Capped = st.Capped || st2.Capped
+		for k, v := range st2.Outcomes {
+			st.Outcomes["rotated:"+k] += v
+		}
+		run.Coverage["rotated_window"] = map[string]interface{}{"rotations": arg2.Rotations, "slots": arg2.Slots, "states": st2.States, "transitions": st2.Transitions}
 		finishBfs(run, st, "BFS to closure over histories of valid reports (8 variants: value, other value, same content re-signed with another nonce, limit, limit+1, two negatives, 2^63-1) for devices A (capacity 1000) and B (capacity 7) over the listed slots; state = per slot (empty | first report variant | banned); every transition = fresh real server + replay + one report, compared with the reference model, the set-based rule and all public observables")
 		run.Coverage["slots"] = arg.Slots
 		return exitCode(run, st)
